@@ -1,6 +1,8 @@
 """C12 — topic deletion is detected exactly.
-Compares, per cycle: whether metadata was re-read and the StorageSetDeleteTopic requests (implementation vs
-extracted ClusterMod.run) on topic-set trajectories with refresh faults and ticks interleaved."""
+Compares, per cycle: whether metadata was re-read and the StorageSetDeleteTopic requests the storage side RECEIVED
+(implementation vs extracted ClusterMod.run / run_s) on topic-set trajectories with refresh faults and ticks interleaved,
+including scenarios in which the storage side is busy (> 1 s, real time) at the moment a deletion is due.
+See checks/clustergen.py, design_notes/C12.md."""
 import clustergen
 
 
